@@ -34,6 +34,8 @@ CHECKS = {
          "Lean 4 proof (induction over the fold, Perm.sum_eq) + correspondence on whole-plant results incl. permuted component lists"),
  "C11": ("Theorems about interval-weighted sums of an arbitrary per-step rate (the form of every extensive figure): additive over any split into consecutive parts, invariant under permutation of the steps with their inputs, linear in the interval lengths; duration = sum of intervals; running hours additive and linear; a scalar operating point = a series of one. That the implementation's whole pipeline is such a sum is decided by the correspondence: whole vs merged parts, vs permuted steps, vs scaled intervals on electric / mechanical / hybrid plants with breaker and status changes inside the series, plus model-vs-code for integrate_data, the cumulative variant and get_duration_s.",
          "Lean 4 proof (list sums, Perm) + metamorphic correspondence (split / permute / scale) on whole-plant runs"),
+ "C12": ("Theorems over a generic state machine of object reuse (set inputs / balance / read result / query) for ANY balance and result function: a calculation with freshly supplied inputs gives the outputs of a fresh object after any history, repeating it changes nothing, queries leave the state unchanged and answer the same twice. PARTIAL by nature of the technique: a value model cannot exhibit Python aliasing or hidden state, so the force of the check is the correspondence: histories of 2-4 calculations on one real object (all plant types and the MachineryCalculation front end) compared after every step with a fresh object, with snapshots of the caller-owned arrays, with repeated balances / result reads and interleaved queries incl. protobuf export.",
+         "Lean 4 proof over a generic reuse state machine + history-based correspondence (reused vs fresh object, caller-array snapshots)"),
  "C15": ("Theorems over the model of min_load_table_dict + PmsLoadTable.on_pattern for every list of positive ratings (any length >= 1), every positive fraction and every load: sufficient (strictly above the load whenever some set is), all-on otherwise, minimal among non-empty sets, monotone, non-empty, loading <= fraction after an equal-sharing balance; and for the equal-size rule of feems.runsimulation (ceil): non-empty, sufficient, minimal, monotone. Proofs use only 'sorted + permutation of all patterns'. Correspondence compares table lookups exactly (integer ratings x dyadic fractions make double thresholds exact) incl. every threshold, ties, negative loads and loads above capacity; the MachineryCalculation front end is exercised by C16/C12.",
          "Lean 4 proof (sortedness + permutation argument over the pattern table) + model/implementation correspondence at and around every switching threshold"),
  "C17": ("Theorems over the storage model: energy = interval-weighted sum of terminal power x charging efficiency / discharging efficiency after converter loss, SoC formula (battery kWh, supercapacitor Wh), accumulated series starts at 0, has n+1 entries and ends at the total, stored energy never exceeds terminal energy for any series (so equal charge and discharge never raise the SoC), closed form for one charge/discharge. The converter is an abstract function constrained only by 'never creates energy'; in the correspondence its per-sample value is an oracle read from the real converter.",
